@@ -3,6 +3,8 @@
 # Rebuilds the encoding from /repo's working tree (go/packages + go/ssa inside gosx) on every run.
 cd "$(dirname "$0")" || exit 2
 export GOFLAGS=-mod=mod GOPROXY=off VERIF_DIR="$PWD"
+# /repo needs go1.24.11: let the default go switch to the cached toolchain (GOSUMDB=off breaks that switch)
+export GOTOOLCHAIN=auto; unset GOSUMDB
 id="$1"; tier="${2:-${VERIF_TIER:-quick}}"
 if [ ! -x bin/gosx ] || [ -n "$(find engine -name '*.go' -newer bin/gosx 2>/dev/null | head -1)" ]; then
   mkdir -p bin && (cd engine && go build -o ../bin/gosx ./cmd/gosx) || { echo "cannot build gosx"; exit 2; }
